@@ -175,6 +175,16 @@ add("C16",
     "old-style point-data files must load with one value per cell in the right cell.",
     "VTK library as the independent reader/locator; component 0 holds a unique value per cell so a misplaced cell shows.")
 
+add("C17",
+    "Hypothesis-generated fields and DataArray attribute sets (complete / each removed / all geometry removed); exact "
+    "lattice for coordinates; rebuild-from-coordinates model; broken inputs must raise",
+    "Generated-input search: exported coordinates must be the exact cell centres with the region's units (incl. empty "
+    "units), vdims coordinate = labels, attrs = cell/corners/nvdim/unit/tolerance; import of the export must give an "
+    "equal field with the same labels, dtype, names, units and tolerance; with geometric attributes removed the mesh is "
+    "rebuilt half a cell beyond the outermost centres; uneven coordinates (at every scale and under every attribute set), "
+    "missing/non-int nvdim, missing vdims axis and non-DataArray input must be rejected.",
+    "field unit not restored on import (not claimed); attribute-free import only with >= 2 cells per direction.")
+
 PENDING = {}
 
 
